@@ -62,6 +62,9 @@ def run(rep, tier):
     # the bounding-box rejections (has_disjoint_bboxes, relate's envelope shortcut) are only as right as bounding_rect itself (tables shared with C19)
     from . import c19
     c19.bbox_tables(rep, F, rule="R2.9")
+    # every exact predicate this property rests on is a sign of the orientation kernel (rules shared with C03)
+    from . import c03 as _c03
+    _c03.kernel_rules(rep, F, "R2.13")
 
 
 # ------------------------------------------------------------------------------------------------
